@@ -351,7 +351,13 @@ def glexindex_membership(cfg: Dict, timeout_s: int = 60) -> Dict:
     import numpoly
 
     start, stop, dims, ct, graded, reverse = cfg["start"], cfg["stop"], cfg["dimensions"], cfg["cross_truncation"], cfg["graded"], cfg["reverse"]
-    norm = float("inf") if ct == "inf" else ct
+    _n = lambda v: float("inf") if v == "inf" else v
+    if isinstance(ct, (list, tuple)):
+        # documented pair form: (norm of the lower-bound truncation, norm of the upper-bound truncation)
+        norm_lo, norm_hi = _n(ct[0]), _n(ct[1])
+        norm = (norm_lo, norm_hi)
+    else:
+        norm = norm_lo = norm_hi = _n(ct)
     t0 = time.time()
     try:
         if cfg.get("via") == "bindex":
@@ -376,8 +382,8 @@ def glexindex_membership(cfg: Dict, timeout_s: int = 60) -> Dict:
     if dims == 1:
         spec = z3.And(xs[0] >= max(sv[0], 0), xs[0] < ev[0])
     else:
-        upper = _inside_z3(xs, [e - 1 for e in ev], norm, aux, "u")
-        lower = _inside_z3(xs, [s_ - 1 for s_ in sv], norm, aux, "l")
+        upper = _inside_z3(xs, [e - 1 for e in ev], norm_hi, aux, "u")
+        lower = _inside_z3(xs, [s_ - 1 for s_ in sv], norm_lo, aux, "l")
         spec = z3.Xor(lower, upper)
     member = z3.Or(*[z3.And(*[x == v for x, v in zip(xs, r)]) for r in rows]) if rows else z3.BoolVal(False)
     s = z3.Solver()
@@ -530,7 +536,11 @@ def gen_cases(tier: str, seed: int) -> List[Dict]:
     # points that lie exactly on a norm-2 / norm-1 sphere (float rounding inside the norm must not drop them): 3-4 dimensions, stop 6
     sphere = [{"start": 0, "stop": 6, "dimensions": d, "cross_truncation": ct, "graded": g, "reverse": r, "via": "glexindex"}
               for ct in (2, 1, 0.5) for d in (4, 3) for g, r in ((True, False), (False, True))]
-    take = sphere[: (6 if quick else len(sphere))] + cfgs[: 120 if quick else len(cfgs)]
+    # pair norms (lower, upper) with lower <= upper and start <= stop (then the lower region lies inside the upper one)
+    pairs = [{"start": st, "stop": sp, "dimensions": d, "cross_truncation": list(ct), "graded": g, "reverse": r, "via": "glexindex"}
+             for ct in ((1, 2), (1, "inf"), (0.5, 1), (2, "inf"), (0, "inf"), (0, 1)) for d in (2, 3, 4) for st, sp in ((1, 4), (2, 5), (0, 4)) for g, r in ((True, False), (False, True))]
+    rng.shuffle(pairs)
+    take = sphere[: (6 if quick else len(sphere))] + pairs[: (14 if quick else len(pairs))] + cfgs[: 120 if quick else len(cfgs)]
     # sequences in one process: the same numbers split differently between start and stop, and the same bounds under
     # different norms / sort flags (a result must not depend on earlier calls)
     seqs = [
